@@ -135,10 +135,14 @@ def write(
             root_savedlist = Root(name = "root_savedlist")
             ind_ars = 0
             ind_dics = 0
+            node_names = [x.name for x in list_unrooted_items if isinstance(x,Node)]
             for x in list_unrooted_items:
                 if isinstance(x,Node):
                     root_savedlist.tree(x)
                 elif isinstance(x,np.ndarray):
+                    # don't shadow a node the user named like this
+                    while f"array_{ind_ars}" in node_names:
+                        ind_ars += 1
                     ar = Array(
                         name = f"array_{ind_ars}",
                         data = x
